@@ -259,7 +259,15 @@ func (s *Statement) Pipeline(task *pod_info.PodInfo, hostname string, updateTask
 
 	previousNode := task.NodeName
 	task.NodeName = hostname
-	previousGpuGroup := task.GPUGroups
+	// The GPU groups of the new placement are already written on the task when it gets here. What undoing the
+	// pipeline has to restore are the groups it held before: those of its entry on the node it was on, none
+	// for a task that was on no node.
+	var previousGpuGroup []string
+	if previousNodeInfo, found := s.ssn.ClusterInfo.Nodes[previousNode]; found {
+		if taskOnPreviousNode, found := previousNodeInfo.PodInfos[taskKey]; found {
+			previousGpuGroup = taskOnPreviousNode.GPUGroups
+		}
+	}
 	previousIsVirtualStatus := task.IsVirtualStatus
 	var previousResourceClaimInfo bindrequest_info.ResourceClaimInfo
 	if task.ResourceClaimInfo != nil {
@@ -444,6 +452,7 @@ func (s *Statement) unallocate(task *pod_info.PodInfo, previousNodeName string, 
 	}
 
 	task.NodeName = ""
+	task.GPUGroups = nil
 	task.IsVirtualStatus = previousIsVirtualStatus
 
 	for _, eh := range s.ssn.eventHandlers {
